@@ -66,13 +66,14 @@ func main() {
 		"server page-size sequence incl. empty pages, n honoured or not, continuation by last= / opaque token / token with last taking precedence, link target form (absolute URL, absolute path, relative segment, query only, network path, dot segments), " +
 		"link parameter spelling, extra link parameters (optional / insisted on), artifactType filter mode, callback failing on its j-th call, MaxMetadataBytes with one body sized limit−1 / limit / limit+1 / ≫ limit by padding before, after or inside the list, Content-Length or chunked); " +
 		"oracle: callback arguments concatenated = registry list after last (filtered), nothing after a page without next link, a callback failure is returned and ends the traffic, a body larger than the limit gives an error and exactly the earlier pages, " +
-		"bytes read from every 200 listing body ≤ limit; distinct = (target, served page lengths, link form+spelling, cursor, last class, size class, filter mode, failure class); non-trivial = ≥ 3 pages served or a body within ±1 of the limit (OCI: non-empty last with tags on both sides)")
+		"bytes read from every 200 listing body ≤ limit; distinct = (target, served page lengths, link form+spelling, cursor, last class, size class, filter mode, failure class); non-trivial = ≥ 3 pages served or a body within ±1 of the limit (OCI: non-empty last with tags on both sides); phase rel: the final page carries only a rel=\"prev\" / rel=\"first\" link, or every page lists a rel=\"prev\" link before the rel=\"next\" one (violation keys link-rel-ignored:*)")
 	r.Assume("the scripted registry is consistent (HEAD and GET of the referrers index agree, pages do not change during a listing)")
+	r.Assume("every link value sent by the scripted registry carries a rel parameter; a link value without rel is not exercised (either reading is accepted)")
 	r.Assume("a body exceeding the limit only by white space after a JSON value that fits is not judged for error-vs-success (either an error with the earlier pages or the complete list is accepted)")
 	worker.Run(r, worker.Opts{Phase: "list", Total: r.N(1500, 36000), Batch: r.N(50, 250)})
 	worker.Run(r, worker.Opts{Phase: "oci", Total: r.N(240, 5000), Batch: r.N(20, 100)})
 	worker.Run(r, worker.Opts{Phase: "rel", Total: r.N(24, 120), Batch: 12})
-	r.Finish(r.N(400, 6000))
+	r.Finish(r.N(500, 10000))
 }
 
 func runCase(phase string, i int) worker.Result {
